@@ -887,6 +887,16 @@ def discharge(hyps, goal, budget=20.0, skolems=(), want_model=True):
                 if v is not None: return v
         else:
             log.append(('B:elim', 'not-applicable', 0))
+            if level == 0:
+                # array-valued equalities etc.: the default solver with the goal-directed instances often closes these at once
+                s = z3.Solver()
+                for h in plain: s.add(h)
+                for h in insts: s.add(h)
+                for q in quants: s.add(q.as_forall())
+                s.add(ng)
+                r, dt = _check(s, 4000)
+                log.append(('C0:z3-smt-full(goal instances)', r, round(dt, 3)))
+                if r == 'unsat': return done('proved', 'z3-smt-full')
         if level == 0 and quants:
             # Tier R: counterexample-guided instantiation (finds genuine counterexamples of the instantiated query)
             r, info = refine_loop(plain, quants, goal, skolems, min(budget, 20.0))
